@@ -124,8 +124,13 @@ def build_simple_pt(case):
         kw["transform_in"] = u
         kw["transform_out"] = u.conj().T
     if case.get("named"):
-        kw["name"] = "pt-%d" % (case["tseed"] % 1000)
-        kw["description"] = "hand built, chi=%d" % chi
+        style = case["tseed"] % 4
+        kw["name"] = ["pt-%d" % (case["tseed"] % 1000),
+                      "\u03c0-tensor \u00e9\u00e8 #%d" % (case["tseed"] % 7),
+                      "", "x" * 300][style]
+        kw["description"] = ["hand built, chi=%d" % chi,
+                             "line one\nline two\ttab", "",
+                             "\u2202\u03c1/\u2202t"][style]
     pt = oqupy.process_tensor.SimpleProcessTensor(
         hilbert_space_dimension=d, dt=case["dt"], **kw)
     for k in range(n):
